@@ -59,7 +59,7 @@ def ring(N : int, defect : float, open :bool = False, n_cover:int = 1) -> Surfac
             P2 = 2*P2
         elif defect>middfct:
             P1 = Pmid
-        elif defect<middfct:
+        else: # defect <= middfct (a strict test here never terminates when defect == middfct)
             P2 = Pmid
         stop = (abs(dfct1 - dfct2) < 1e-6)
     ring.vertices[0] = (P1 + P2)/2
